@@ -341,9 +341,12 @@ class G:
             calls = [{"m": "slice", "a": [{"t": "slice", "a": self.ch([None, 2]), "b": self.ch([5, 9])}]}]
         else:
             calls = [lim, off, {"m": "offset", "a": [7]}]
-        if cls not in ("SQLLiteQuery", "MySQLQuery") and len(calls) >= 2 and calls[1]["m"] == "offset" and self.p(0.5):
-            # offset first (these dialects have grammar for OFFSET without LIMIT)
+        if cls != "MySQLQuery" and len(calls) >= 2 and calls[1]["m"] == "offset" and self.p(0.5):
+            # offset first: a prefix state with OFFSET and no LIMIT (SQLite spells that LIMIT -1 OFFSET n; MySQL, for
+            # which no parser is at hand, is left out)
             calls[0], calls[1] = calls[1], calls[0]
+        if cls != "MySQLQuery" and self.p(0.08):
+            calls = [off]  # offset() alone
         return calls
 
     def k_insert(self, cls, mode):
@@ -949,8 +952,6 @@ def riders(prog, merge, prefixes, L, stats):
                     bad.append(("empty-clause", f"{name} has no body in {sql[:100]}"))
                     break
         if cls == "SQLLiteQuery" and prog["mode"] == "main" and not (set(ms) & SQLITE_UNSUPPORTED):
-            if ms["offset"] and not (ms["limit"] or ms["slice"]):
-                continue
             if ms["into"] and ms["select"] and prog["kind"] == "select":
                 continue
             stats["sqlite_prepared"] += 1
